@@ -86,6 +86,18 @@ class Ctx:
     def call(self, st, f, args, kwargs=None):
         return self.ex.call_fn(st, f, list(args), dict(kwargs or {}))
 
+    def new_object(self, st, cls, **fields):
+        return st.alloc(Obj(cls, tuple(fields.items())))
+
+    def method(self, module, cls, name, self_ref):
+        f = self.ex.find_function(module, f"{cls}.{name}")
+        return Fn(f.node, f.module, f.qualname, None, None if f.is_static else self_ref, cls, f.is_static)
+
+    def sym_list(self, st, name, elem_ty):
+        """a mutable python list with symbolic spine"""
+        sv = self.sym(name, ("list", elem_ty))
+        return st.alloc(ListObj(sv=sv)), sv
+
     def assume_note(self, text):
         if text not in self.assumptions:
             self.assumptions.append(text)
